@@ -5,6 +5,7 @@
 //! woken, so ownership is never parked inside a suspended task. Wakes go to
 //! the queue head one at a time; the node stays linked while its owner
 //! re-contends, and a loser simply re-arms and waits for the next wake.
+#![allow(unexpected_cfgs)] // `excsn_fibre_verif` gates the verification seam (verif_hook.rs)
 
 use super::wait_queue::{WaitList, Waiter, WaiterNode, WAITING, WOKEN};
 
@@ -75,6 +76,8 @@ impl<T> HybridMutex<T> {
 
   #[inline]
   pub fn lock(&self) -> MutexGuard<'_, T> {
+    #[cfg(all(excsn_fibre_verif, not(loom)))]
+    super::verif_hook::emit(0, self as *const Self as *const () as usize, 0);
     if self.try_acquire() {
       return MutexGuard { lock: self };
     }
@@ -155,7 +158,11 @@ impl<T> HybridMutex<T> {
   }
 
   pub fn try_lock(&self) -> Option<MutexGuard<'_, T>> {
+    #[cfg(all(excsn_fibre_verif, not(loom)))]
+    super::verif_hook::emit(1, self as *const Self as *const () as usize, 0);
     if self.try_acquire() {
+      #[cfg(all(excsn_fibre_verif, not(loom)))]
+      super::verif_hook::emit(2, self as *const Self as *const () as usize, 0);
       Some(MutexGuard { lock: self })
     } else {
       None
@@ -206,6 +213,8 @@ pub struct MutexGuard<'a, T> {
 impl<T> Drop for MutexGuard<'_, T> {
   fn drop(&mut self) {
     self.lock.unlock();
+    #[cfg(all(excsn_fibre_verif, not(loom)))]
+    super::verif_hook::emit(3, self.lock as *const HybridMutex<T> as *const () as usize, 0);
   }
 }
 
